@@ -6,6 +6,9 @@ subsets/orders of the seven global switches (long and short spellings) inserted 
 the tokens before `--` (or all after `--`) x handler behaviours (writes at every verbosity to both
 streams, asks a question, raises).  The I/O decisions of `create_io` and the help switch are compared
 with the Lean model (translated from the source on every run); the oracle states the effects.
+The whole run is also compared with the COMPOSED model `App.runApp` (lean/Clikit/Model/App.lean, entry
+`c09.app_run`), which gets the command tree from the real application: status, the command and args selected,
+which handler ran with which args, help page (target) / version line / error, I/O configuration.
 """
 import re
 from harness import app_common as ac
@@ -17,7 +20,10 @@ LEAN_MODULES = ["Clikit.Props.C09"]
 REQUIRED_THEOREMS = ["Clikit.Props.C09." + n for n in (
     "io_perm_invariant", "io_after_dashes", "help_after_dashes", "quiet_iff", "no_interaction_iff", "verbosity_levels",
     "ansi_precedence", "quiet_silences_run", "help_switch_iff", "version_switch", "version_absent",
-    "io_depends_on_membership", "verbosity_monotone_output", "io_only_option_tokens", "io_tail_irrelevant")]
+    "io_depends_on_membership", "verbosity_monotone_output", "io_only_option_tokens", "io_tail_irrelevant",
+    # end to end, on the composed model of a whole run (Model/App.lean), compared with the real run by c09.app_run
+    "app_io_is_switches", "app_help_switch", "app_version_switch", "app_help_command",
+    "app_switches_after_dashes_inert")]
 TECHNIQUE = ("Lean 4 theorems about the switch decisions translated from DefaultApplicationConfig.create_io / "
              "resolve_help_command / print_version on every run (py-AST -> Lean), composed with the C08/C10/C04 results + "
              "differential runs of the real default application with switches inserted at every admissible position")
@@ -27,7 +33,23 @@ LEVEL_TEXT = ("The decisions of create_io (ANSI mode, verbosity, quiet, interact
               "have no effect (io_after_dashes for a prefix without `--`; io_only_option_tokens / io_tail_irrelevant without "
               "any hypothesis, for every token list), quiet/no-interaction/help iff their tokens are among the option tokens, the verbosity and "
               "ANSI precedence rules, quiet drops every write incl. the error report (via C10), the version listener ends "
-              "the run with status 0 without invoking the handler (via C04). That the running application really behaves "
+              "the run with status 0 without invoking the handler (via C04). END TO END: App.runApp (Model/App.lean) composes "
+              "create_io, the PRE_RESOLVE help listener (lenient parse of the help command), DefaultResolver + the args parser, "
+              "the PRE_HANDLE version listener, HelpTextHandler / the abstract handlers and C04's run model in the order of "
+              "ConsoleApplication.run; proved for ALL command trees, token lists, conversion tables and handler behaviours: the "
+              "I/O configuration of a run is createIO of the option tokens whatever command runs (app_io_is_switches); with a "
+              "help switch no handler of the application is invoked and, when the lenient parse succeeds, the run shows the "
+              "page C13's helpTarget selects with status 0 - unless the parsed args also have the version option, then the "
+              "version listener answers first (app_help_switch, for trees whose get_command('help') is named help: helpNamedB, "
+              "decided on every real tree); without a help switch a line that resolves and whose args have the version option "
+              "shows the version, status 0, no handler (app_version_switch); a line resolving to the help command shows "
+              "helpTarget's page (app_help_command); tokens after `--` change neither the I/O configuration nor the help "
+              "listener's decision, and for every args format the options set by the parse - hence whether the version option "
+              "is set - do not depend on them (app_switches_after_dashes_inert, via a frame property of the token loop). The "
+              "composed model is compared with the REAL run on every case (c09.app_run): I/O configuration (of create_io and of "
+              "the io object the run carried), the command and args resolve_command selects (incl. the lenient parse of the "
+              "help command) or the class of its exception, which handler ran with which set arguments/options, help page "
+              "(and which target) / version line / error, status. That the running application really behaves "
               "as these decisions say (streams, handler-observed state, help/version pages, status) is checked by "
               "differential runs on generated trees with the switches inserted at admissible positions, and by the oracle.")
 LEVEL_NOTE = ("Trusted: Lean kernel + standard axioms; tools/genparts/c09.py (AST shape matching of create_io and the two "
@@ -41,6 +63,10 @@ TRUSTED_BASE = [
     "tools/genparts/c09.py: translation of the decision structure of create_io / resolve_help_command / print_version",
     "theorems of C08 (option tokens), C10 (gate) and C04 (run) that the C09 theorems compose",
     "harness/props/c09.py, harness/app_common.py: trees, insertion positions, stream fakes, oracle",
+    "lean/Clikit/Model/App.lean: hand-written composition of the existing models (Switches, Resolver, Parser, Help target, "
+    "Run) in the order of the code - modelled, not verified; tied to ConsoleApplication.run by c09.app_run on every case. The "
+    "observation of the real run uses two late listeners (PRE_RESOLVE / PRE_HANDLE, priority -10, read-only) and recording "
+    "SUBCLASSES of HelpTextHandler / HelpResolver set as the help command's handler (they only delegate to the real methods)",
 ]
 ASSUMPTIONS = [
     "switches are inserted at item boundaries (never between an option and its separate value); `-v` is an optional-value option, so a following positional is consumed - the I/O effect is the same, the command's arguments are not",
@@ -49,6 +75,15 @@ ASSUMPTIONS = [
     "`has_option_token` tests (RawArgs.option_tokens) is the model's optionTokens is compared on every case; the version "
     "theorems take `the parsed args have the version option set` as the parameter of versionListener (its link to the "
     "tokens --version / -V is stated by the oracle, not proved: it goes through the args parser, C01)",
+    "composed model (c09.app_run): nothing is excluded from the comparison - `-v` taking the next positional as its optional "
+    "value is modelled by the parser model (the line then resolves/parses as the real one does), switches placed before the "
+    "command name make the line resolve to the default command `help` in the model as in the code. Handlers of generated "
+    "cases return 0 or raise RuntimeError (other return values / KeyboardInterrupt: C04's table); debug_cfg is passed to both "
+    "sides but always False in generated cases; the text of help pages is C13's subject (only kind, target and that `USAGE` / "
+    "the version line appears unless quiet are compared); rendering a help page / the version line is taken to succeed",
+    "app_help_switch assumes helpNamedB (the command get_command('help') returns is named `help`, so its handler is "
+    "HelpTextHandler): decided by the model on the tree read from every real application and compared with true, together with "
+    "C13's wiredB for both switches (helpNamed_of_wired: wiredB implies it)",
 ]
 BATCH = 600
 
@@ -82,6 +117,40 @@ def _valid_line(rng, tree):
     return path, vals
 
 
+def _path_opts(tree, path):
+    """the options a line for `path` may carry: those of the commands along the path and of the default sub-command
+    the line is meant for (formats inherit the options of the parent)"""
+    out, level, node = [], ac.enabled(tree["commands"]), None
+    for name in path:
+        node = [c for c in level if c["name"] == name][0]
+        out += node["opts"]
+        level = ac.enabled(node["subs"])
+    dflt = [c for c in level if c["default"]]
+    if dflt:
+        out += dflt[0]["opts"]
+    return out
+
+
+def _add_command_options(case_no, tree, path, tokens):
+    """sometimes the line also carries options of the selected command (`--force`, `--num=7`): the help listener's
+    LENIENT parse of the `help` command must skip them, the command's own parse must set them.  Drawn from a child
+    generator seeded by the case, so that the main case stream is the one it was before this was added."""
+    import json
+    import random
+    sub = random.Random("c09-opts:" + json.dumps([case_no, tokens]))
+    if sub.random() >= 0.35:
+        return tokens
+    tokens = list(tokens)
+    for o in _path_opts(tree, path):
+        if sub.random() < 0.6:
+            tok = "--" + o["long"] if o["mode"] == "flag" else \
+                "--%s=%s" % (o["long"], pc.value_for(sub, o["type"], o["nullable"], True))
+            end = tokens.index("--") if "--" in tokens else len(tokens)
+            start = len(path) if tokens[:len(path)] == path else end
+            tokens.insert(sub.randint(min(start, end), end), tok)
+    return tokens
+
+
 def generate(tier, rng):
     n = 4000 if tier == "quick" else 40000
     k = 0
@@ -105,6 +174,7 @@ def generate(tier, rng):
                 # after the command path, at an item boundary
                 pos = rng.randint(len(path), len(tokens)) if rng.random() < 0.85 else rng.randint(0, len(tokens))
                 tokens.insert(pos, s)
+        tokens = _add_command_options(k, tree, path, tokens)
         yield {"tree": tree, "path": path, "tokens": tokens, "switches": sw, "after": after,
                "raises": rng.random() < 0.2, "debug_cfg": False}
 
@@ -137,7 +207,10 @@ class _Handler(object):
         from clikit.api.io.flags import DEBUG, VERBOSE, VERY_VERBOSE
         from clikit.ui.components.question import Question
         rec = {"command": list(self.path), "quiet": io.is_quiet(), "verbosity": io.verbosity,
-               "interactive": io.is_interactive(), "decorated": io.output.supports_ansi()}
+               "interactive": io.is_interactive(), "decorated": io.output.supports_ansi(),
+               # the args the handler was called with, in the canonical encoding (composed model: c09.app_run)
+               "args_set": sorted([[k, pc.enc(v)] for k, v in args.arguments(False).items()]),
+               "opts_set": sorted([[k, pc.enc(v)] for k, v in args.options(False).items()])}
         for name, fl in (("n", None), ("v", VERBOSE), ("vv", VERY_VERBOSE), ("d", DEBUG)):
             io.write_line("<info>out-%s</info>" % name, fl)
             io.error_line("<info>err-%s</info>" % name, fl)
@@ -159,17 +232,83 @@ def _cfg_of(io):
     return {"ansi": ansi, "verbosity": io.verbosity, "quiet": io.is_quiet(), "interactive": io.is_interactive()}
 
 
-def run_impl(case):
-    from clikit.api.event import PRE_RESOLVE
-    from clikit.args.argv_args import ArgvArgs
+def _build(case, probe=None, help_log=None):
+    """the REAL default application of a case.  `probe`: a dict two late listeners write into (they run after the
+    default ones and touch nothing); `help_log`: the `help` command's handler is replaced by a recording SUBCLASS of
+    HelpTextHandler with a recording subclass of HelpResolver (both only delegate to the real methods)."""
+    from clikit.api.event import PRE_HANDLE, PRE_RESOLVE
     from clikit.config.default_application_config import DefaultApplicationConfig
+    config = DefaultApplicationConfig("app", "1.2.3")
+    if case.get("debug_cfg"):
+        config.debug(True)
+    if probe is not None:
+        config.add_event_listener(PRE_RESOLVE, lambda e, n, d: probe.__setitem__("late_listener", True), -10)
+
+        def pre_handle(event, name, dispatcher):
+            a = event.args
+            probe["selected"] = {"path": ac.path_of(event.command),
+                                 "args_set": sorted([[k, pc.enc(v)] for k, v in a.arguments(False).items()]),
+                                 "opts_set": sorted([[k, pc.enc(v)] for k, v in a.options(False).items()])}
+            probe["handled"] = bool(event.is_handled())
+            probe["io"] = _run_cfg(event.io)
+        config.add_event_listener(PRE_HANDLE, pre_handle, -10)
+    if help_log is not None:
+        from clikit.handler.help import HelpTextHandler
+        from clikit.resolver.help_resolver import HelpResolver
+
+        class RecResolver(HelpResolver):
+            def resolve(self, args, application):
+                rc = super(RecResolver, self).resolve(args, application)
+                help_log["resolved"] = ac.path_of(rc.command)
+                return rc
+
+        class RecHelp(HelpTextHandler):
+            def handle(self, args, io, command):
+                help_log["called"] = help_log.get("called", 0) + 1
+                try:
+                    r = super(RecHelp, self).handle(args, io, command)
+                except Exception as e:  # noqa
+                    help_log["raised"] = type(e).__name__
+                    raise
+                help_log["returned"] = r
+                return r
+        config.get_command_config("help").set_handler(RecHelp(RecResolver()))
+    app = ac.build_app(case["tree"], config=config, handler_for=lambda p: _Handler(p, case["raises"]), catch=True)
+    return config, app
+
+
+def _run_cfg(io):
+    """the I/O configuration of the io object of the run itself (plain buffered streams: `auto` selects the plain
+    formatter there, so only `forced` is visible of the ANSI mode)"""
+    from clikit.formatter.ansi_formatter import AnsiFormatter
+    f = io.output.formatter
+    return {"forced": isinstance(f, AnsiFormatter) and bool(f.force_ansi()), "verbosity": io.verbosity,
+            "quiet": io.is_quiet(), "interactive": io.is_interactive()}
+
+
+def _resolve_only(case):
+    """`resolve_command` of a second, identical application: the command and args the line selects, or the class of
+    the exception (the run itself only shows status 1 and, unless quiet, the report)"""
+    from clikit.args.argv_args import ArgvArgs
+    _, app = _build(case)
+    try:
+        rc = app.resolve_command(ArgvArgs(["prog"] + list(case["tokens"])))
+    except Exception as e:  # noqa
+        return {"err": type(e).__name__}
+    a = rc.args
+    return {"ok": {"path": ac.path_of(rc.command),
+                   "args_set": sorted([[k, pc.enc(v)] for k, v in a.arguments(False).items()]),
+                   "opts_set": sorted([[k, pc.enc(v)] for k, v in a.options(False).items()])}}
+
+
+def run_impl(case):
+    from clikit.args.argv_args import ArgvArgs
     from clikit.io.input_stream.string_input_stream import StringInputStream
     Buf, AnsiCapable = _streams()
     del RECORDS[:]
     probe = {"late_listener": False}
-    config = DefaultApplicationConfig("app", "1.2.3")
-    config.add_event_listener(PRE_RESOLVE, lambda e, n, d: probe.__setitem__("late_listener", True), -10)
-    app = ac.build_app(case["tree"], config=config, handler_for=lambda p: _Handler(p, case["raises"]), catch=True)
+    help_log = {}
+    config, app = _build(case, probe, help_log)
     tokens = case["tokens"]
     raw = ArgvArgs(["prog"] + tokens)
     # 1. the decisions of create_io, with streams that claim ANSI support (so `auto` is visible)
@@ -185,23 +324,92 @@ def run_impl(case):
         status, escaped = None, type(e).__name__
     return {"cfg": cfg, "help_switch": not probe["late_listener"], "status": status, "escaped": escaped,
             "out": out.fetch(), "err": err.fetch(), "records": list(RECORDS),
-            "option_tokens": list(raw.option_tokens)}
+            "option_tokens": list(raw.option_tokens),
+            # what the composed model (c09.app_run) is compared with
+            "selected": probe.get("selected"), "handled": probe.get("handled"), "run_io": probe.get("io"),
+            "help_log": help_log, "resolve": _resolve_only(case)}
 
 
 def model_requests(case):
-    return [{"m": "c09.create_io", "tokens": case["tokens"], "debug": False}]
+    # the composed model gets the command tree (incl. the `help` command and every flattened format) from the REAL
+    # default application, as C03 / C13 do
+    _, app = _build(case)
+    nodes = ac.extract_app(app)
+    ints, floats = pc.conv_tables(ac.all_texts(nodes, case["tokens"]))
+    debug = bool(case.get("debug_cfg"))
+    return [{"m": "c09.create_io", "tokens": case["tokens"], "debug": debug},
+            {"m": "c09.app_run", "commands": nodes, "tokens": case["tokens"], "ints": ints, "floats": floats,
+             "debug": debug, "raises": bool(case["raises"])}]
+
+
+def _sel(o):
+    return {"path": o["path"], "args_set": sorted(o["args_set"]), "opts_set": sorted(o["opts_set"])}
 
 
 def model_obs(case, answers):
-    a = answers[0]
+    a, r = answers[0], answers[1]
+    sel = {"ok": _sel(r["selected"]["ok"])} if "ok" in r["selected"] else {"err": r["selected"]["err"]}
+    io = r["io"]
+    app = {"io": io, "selected": sel,
+           # the command PRE_HANDLE saw in the run itself, and the io object it carried
+           "selected_in_run": sel.get("ok"),
+           "run_io": {"forced": io["ansi"] == "forced", "verbosity": io["verbosity"], "quiet": io["quiet"],
+                      "interactive": io["interactive"]} if "ok" in sel else None,
+           "what": r["what"], "status": r["status"], "escaped": r["escaped"],
+           "invoked": [_sel(x) for x in r["invoked"]], "printed": True,
+           # hypotheses of the end-to-end theorems about the tree, decided by the model on the real tree
+           "help_named": r["help_named"], "wired": r["wired"]}
     return {"cfg": {"ansi": a["ansi"], "verbosity": a["verbosity"], "quiet": a["quiet"], "interactive": a["interactive"]},
             "help_switch": a["help"],
-            "option_tokens": ["".join(map(chr, t)) for t in a["option_tokens"]]}
+            "option_tokens": ["".join(map(chr, t)) for t in a["option_tokens"]],
+            "app": app}
+
+
+def _impl_what(obs):
+    """what happened in the real run, read off the recorders (never off the text, except `printed`)"""
+    hl = obs["help_log"]
+    if obs["escaped"] is not None:
+        return {"kind": "escaped", "exc": obs["escaped"]}
+    if obs["selected"] is None:
+        # PRE_HANDLE was not reached: resolve_command raised; its class is the one the separate resolution shows
+        return {"kind": "error", "err": obs["resolve"].get("err", "?resolved-but-not-handled")}
+    if obs["handled"]:
+        return {"kind": "version"}
+    if hl.get("called"):
+        if "returned" in hl:
+            return {"kind": "help", "target": {"cmd": hl["resolved"]} if "resolved" in hl else "app"}
+        return {"kind": "error", "err": hl.get("raised")}
+    if obs["records"]:
+        return {"kind": "ran", "path": obs["records"][0]["command"]}
+    return {"kind": "nothing"}
+
+
+def _impl_app(case, obs):
+    what = _impl_what(obs)
+    plain_out = re.sub(r"\x1b\[[0-9;]*m", "", obs["out"])
+    printed = True
+    if not obs["cfg"]["quiet"]:
+        if what["kind"] == "version":
+            printed = "version 1.2.3" in plain_out
+        elif what["kind"] == "help":
+            printed = "USAGE" in plain_out
+    if hl_calls(obs) > 1:
+        what = {"kind": "help-handler-called-%d-times" % hl_calls(obs)}
+    return {"io": obs["cfg"], "selected": obs["resolve"], "selected_in_run": obs["selected"], "run_io": obs["run_io"],
+            "what": what, "status": obs["status"], "escaped": obs["escaped"] is not None,
+            "invoked": [{"path": r["command"], "args_set": r["args_set"], "opts_set": r["opts_set"]}
+                        for r in obs["records"]],
+            "printed": printed, "help_named": True, "wired": {"-h": True, "--help": True}}
+
+
+def hl_calls(obs):
+    return obs["help_log"].get("called", 0)
 
 
 def impl_view(case, obs):
     # option_tokens: the list every theorem's `hasTok` tests membership in is the real RawArgs.option_tokens
-    return {"cfg": obs["cfg"], "help_switch": obs["help_switch"], "option_tokens": obs["option_tokens"]}
+    return {"cfg": obs["cfg"], "help_switch": obs["help_switch"], "option_tokens": obs["option_tokens"],
+            "app": _impl_app(case, obs)}
 
 
 def oracle(case, obs):
